@@ -248,7 +248,62 @@ def run_case(case):
                 os.unlink(path)
             except OSError:
                 pass
+    # ---- oracle on the real code (in the worker: parsing the renderings back is the expensive part) ----------------
+    out["verdicts"], out["counts"] = judge_case(doc, via, out["obs"], out["cells"])
+    if not case.get("keep_cells"):
+        out["cells"] = None
     return out
+
+
+def judge_case(doc, via, obs_by_mode, cells):
+    verdicts, counts = [], {}
+
+    def cnt(k):
+        counts[k] = counts.get(k, 0) + 1
+
+    def fail(mode, why, why_class, **kw):
+        verdicts.append({"kind": "fail", "mode": mode, "why": why, "why_class": why_class, **kw})
+    text = PD.render(doc) if via == "text" else None
+    for mode in MODES:
+        obs = obs_by_mode[mode]
+        if "exc" in obs:
+            fail(mode, "project()/converter raised: " + obs["exc"], "raise")
+            continue
+        pivot = obs["doc"]
+        # the projection itself only removes
+        inv = atoms(pivot) - atoms(doc)
+        cont = PD.container_paths(doc)
+        inv = {k: v for k, v in inv.items() if not (k[1] == ("emptymap",) and k[0] in cont)}
+        if inv:
+            fail(mode, f"projection invents {short(Counter(inv))}", "filter-invents")
+        if mode in LOSSLESS and (atoms(pivot) != atoms(doc) or obs["lossy"] is not False):
+            fail(mode, f"{mode} projection is not the document or lossy={obs['lossy']}", "lossless-mode")
+        if atoms(pivot) != atoms(doc) and obs["lossy"] is not True:
+            fail(mode, "projection dropped leaves but lossy is not True", "dishonest-projection")
+        if mode in DOCUMENTED_KEEP and mechanism_applies(doc):
+            want = {**PD.strip_comments(doc), "sections": spec_filter(PD.strip_comments(doc)["sections"], DOCUMENTED_KEEP[mode])}
+            if atoms(want) != atoms(pivot) or json.dumps(want["sections"], sort_keys=True) != json.dumps(PD.strip_comments(pivot)["sections"], sort_keys=True):
+                cnt("mechanism:FAIL")
+                fail(mode, f"{mode} projection is not 'keep a node when its key is in {sorted(DOCUMENTED_KEEP[mode])} or a descendant is, subtrees copied "
+                           f"without rewriting': expected leaves {short(atoms(want) - atoms(pivot))} missing, {short(atoms(pivot) - atoms(want))} unexpected",
+                     "mechanism:" + mode, text=text, expected_projection=want["sections"], observed_projection=pivot["sections"])
+            else:
+                cnt("mechanism:ok")
+        safe = PD.text_safe(pivot)
+        for key, res in cells.items():
+            channel, m, fmt = key.split("|")
+            if m != mode:
+                continue
+            if fmt == "octave" and not safe:
+                cnt("octave_view_skipped:outside_reader_roundtrip")
+                continue
+            verdict, detail = judge(doc, pivot, mode, fmt, channel, res)
+            cnt(f"cell:{channel}:{fmt}:{verdict.split(':')[0]}")
+            if verdict == "ok":
+                continue
+            verdicts.append({"kind": verdict, "mode": mode, "format": fmt, "channel": channel, "detail": [list(x) for x in detail[:4]], "text": text,
+                             "observed": {k: (v[:800] if isinstance(v, str) else v) for k, v in res.items()}})
+    return verdicts, counts
 
 
 # ---------------------------------------------------------------------------------------------
@@ -322,7 +377,7 @@ def build_cases(ctx):
 def replay_findings(ctx, findings):
     for f in findings:
         w = f["witness"]
-        case = {"doc": w["doc"], "via": w.get("via", "text"), "cli": "inproc"}
+        case = {"doc": w["doc"], "via": w.get("via", "text"), "cli": "inproc", "keep_cells": True}
         r = run_case(case)
         if r["pre"]:
             ctx.notes.append(f"witness of {f['id']} no longer readable: {r['pre']}")
@@ -407,54 +462,25 @@ def run(ctx: vlib.Ctx):
                                      ("meta_nested", PD.has_kind(doc, "pydict"))):
                     if kf[lean_k] != py_v:
                         ctx.corr_disagreements.append({"case": {"doc": doc}, "view": "class predicate " + lean_k, "model": kf[lean_k], "impl": py_v})
-            # ---- oracle on the real code ----------------------------------------------------------
-            if "exc" in obs:
-                ctx.failures.append({"case": {"doc": doc, "mode": mode, "via": case["via"]}, "why": "project()/converter raised: " + obs["exc"], "why_class": "raise"})
+        for k, n in r["counts"].items():
+            ctx.count(k, n)
+        for v in r["verdicts"]:
+            base = {"doc": doc, "mode": v["mode"], "via": case["via"]}
+            if v["kind"] == "fail":
+                ctx.failures.append({"case": {**base, "text": v.get("text")}, "why": v["why"], "why_class": v["why_class"],
+                                     **{k: v[k] for k in ("expected_projection", "observed_projection") if k in v}})
                 continue
-            pivot = obs["doc"]
-            # the projection itself only removes
-            inv = atoms(pivot) - atoms(doc)
-            cont = PD.container_paths(doc)
-            inv = {k: v for k, v in inv.items() if not (k[1] == ("emptymap",) and k[0] in cont)}
-            if inv:
-                ctx.failures.append({"case": {"doc": doc, "mode": mode, "via": case["via"]}, "why": f"projection invents {short(Counter(inv))}", "why_class": "filter-invents"})
-            if mode in LOSSLESS and (atoms(pivot) != atoms(doc) or obs["lossy"] is not False):
-                ctx.failures.append({"case": {"doc": doc, "mode": mode, "via": case["via"]}, "why": f"{mode} projection is not the document or lossy={obs['lossy']}", "why_class": "lossless-mode"})
-            if atoms(pivot) != atoms(doc) and obs["lossy"] is not True:
-                ctx.failures.append({"case": {"doc": doc, "mode": mode, "via": case["via"]}, "why": "projection dropped leaves but lossy is not True", "why_class": "dishonest-projection"})
-            if mode in DOCUMENTED_KEEP and mechanism_applies(doc):
-                want = {**PD.strip_comments(doc), "sections": spec_filter(PD.strip_comments(doc)["sections"], DOCUMENTED_KEEP[mode])}
-                if atoms(want) != atoms(pivot) or json.dumps(want["sections"], sort_keys=True) != json.dumps(PD.strip_comments(pivot)["sections"], sort_keys=True):
-                    ctx.count("mechanism:FAIL")
-                    ctx.failures.append({"case": {"doc": doc, "mode": mode, "via": case["via"], "text": PD.render(doc) if case["via"] == "text" else None},
-                                         "why": f"{mode} projection is not 'keep a node when its key is in {sorted(DOCUMENTED_KEEP[mode])} or a descendant is, subtrees copied "
-                                                f"without rewriting': expected leaves {short(atoms(want) - atoms(pivot))} missing, {short(atoms(pivot) - atoms(want))} unexpected",
-                                         "why_class": "mechanism:" + mode, "expected_projection": want["sections"], "observed_projection": pivot["sections"]})
-                else:
-                    ctx.count("mechanism:ok")
-            for key, res in r["cells"].items():
-                channel, m, fmt = key.split("|")
-                if m != mode:
+            detail = v["detail"]
+            if v["kind"].startswith("known:"):
+                cls = v["kind"][6:]
+                f = by_class.get(cls)
+                if f is not None:
+                    ctx.known_hits[f["id"]] = ctx.known_hits.get(f["id"], 0) + 1
                     continue
-                if fmt == "octave" and not PD.text_safe(pivot):
-                    ctx.count("octave_view_skipped:outside_reader_roundtrip")
-                    continue
-                verdict, detail = judge(doc, pivot, mode, fmt, channel, res)
-                ctx.count(f"cell:{channel}:{fmt}:{verdict.split(':')[0]}")
-                if verdict == "ok":
-                    continue
-                if verdict.startswith("known:"):
-                    cls = verdict[6:]
-                    f = by_class.get(cls)
-                    if f is not None:
-                        ctx.known_hits[f["id"]] = ctx.known_hits.get(f["id"], 0) + 1
-                        continue
-                    detail = [("class-without-open-finding:" + cls, detail[0][1])]
-                kind, why = detail[0]
-                ctx.failures.append({"case": {"doc": doc, "mode": mode, "format": fmt, "channel": channel, "via": case["via"],
-                                              "text": PD.render(doc) if case["via"] == "text" else None},
-                                     "why": f"{kind}: {why}", "why_class": f"{kind.split(':')[0]}:{fmt}",
-                                     "observed": {k: (v[:800] if isinstance(v, str) else v) for k, v in res.items()}, "all_problems": [list(x) for x in detail[:4]]})
+                detail = [["class-without-open-finding:" + cls, detail[0][1]]]
+            kind, why = detail[0]
+            ctx.failures.append({"case": {**base, "format": v["format"], "channel": v["channel"], "text": v.get("text")},
+                                 "why": f"{kind}: {why}", "why_class": f"{kind.split(':')[0]}:{v['format']}", "observed": v["observed"], "all_problems": detail})
     ctx.trusted = ["Lean 4.33.0 kernel; axioms per theorem in coverage.theorems",
                    "tools/gen/project.py (Gen/Project.lean: keep-lists, mode table, converter dispatch classes, eject lossy expressions)",
                    "correspondence: tools/props/c14.py + harness/project_impl.py (differential: projected document, lossy, fields_omitted, dict of both converter copies, jsonable, markdown of both copies)",
